@@ -244,6 +244,7 @@ var perturbations = []struct {
 	{"unbalanced-bracket-appended", func(v string) string { return v + "([" }},
 	{"unfinished-template-appended", func(v string) string { return v + "{{" }},
 	{"asterisk", func(string) string { return "*" }},
+	{"lone-backslash-segment-appended", func(v string) string { return v + "/\\" }},
 }
 
 func allStrings(items []*node) bool {
